@@ -509,6 +509,12 @@ def sc123(P, C):
     fails = [i for i in rets if f.nodes[f.nodes[i]["value"]].get("cv") == 0]
     succ = [i for i in rets if f.nodes[f.nodes[i]["value"]].get("cv") == 1]
     throws = [i for i in f.walk() if f.k(i) == "CXXThrowExpr"]
+    # the refusal of an empty table (if (ndim == 0) return false; in front of the loop, ES-2) is not a per-dimension exit
+    from . import pm as _pm
+    zex = [z for z in _pm._zero_dim_exits(f) if f.parent[z] == f.body and outer in f.ch(f.body) and f.ch(f.body).index(z) < f.ch(f.body).index(outer)]
+    zrets = [r for r in fails if any(r in set(f.walk(z)) for z in zex)]
+    fails = [r for r in fails if r not in zrets]
+    rets = [r for r in rets if r not in zrets]
     C.ob("SC-1", "searchcenters", "exits", len(fails) == 1 and len(succ) == 1 and not throws and len(rets) == 2 and okl and
          f.parent[succ[0]] == f.body and outer in f.ch(f.body) and f.ch(f.body).index(outer) < f.ch(f.body).index(succ[0]), f.where(),
          "one failure exit, one success exit after the loop over all dimensions (%s), no throw: fails=%d succ=%d throws=%d" % (txt, len(fails), len(succ), len(throws)))
